@@ -40,7 +40,8 @@ STRATS = [
     ("pct", {"d": 1}), ("pct", {"d": 2}), ("pct", {"d": 3}),
     ("pb", {"d": 1}), ("pb", {"d": 2}), ("pb", {"d": 3}),
     ("rd", {"q": 0.1}), ("rd", {"q": 0.25}), ("rd", {"q": 0.5}),
-    ("site", {"site_mod": 60}), ("site", {"site_mod": 150}), ("site", {"site_mod": 400}),
+    ("site", {"site_mod": 15}), ("site", {"site_mod": 40}), ("site", {"site_mod": 150}),
+    ("place", {"kmax": 25}), ("place", {"kmax": 80}),
 ]
 
 
@@ -56,7 +57,7 @@ def draw_sim_cfg(rng, est=600, stall_ok=False, line_ok=True):
         # calibrated placement: measure the length of this very workload under a non-pre-emptive
         # schedule first, then draw the pre-emption / priority-change points uniformly over it
         cfg["calibrate"] = rng.random() < 0.3
-    elif s == "site":
+    elif s in ("site", "place"):
         cfg["line_q"] = 1.0 if line_ok else 0.0
     elif s == "rd":
         cfg["line_q"] = 0.0
@@ -72,6 +73,18 @@ def draw_sim_cfg(rng, est=600, stall_ok=False, line_ok=True):
     if s != "uniform":
         # extra switch probability at yield points inside scripted user code
         cfg["user_q"] = (0.0, 0.0, 0.2, 0.5)[splitmix64(cfg["seed"] ^ 0x2545F491) % 4]
+    return cfg
+
+
+def prefer_place(cfg, p):
+    """For workloads that place a client operation inside a window through a semantic trigger:
+    with probability p (derived from the run's seed) use the `place` strategy, which sweeps the
+    position of that operation relative to the thread inside the window."""
+    h = splitmix64(cfg["seed"] ^ 0x9E3779B1)
+    if (h % 1000) < int(p * 1000):
+        for k in ("d", "p", "q", "site_mod", "max_hold", "est", "calibrate"):
+            cfg.pop(k, None)
+        cfg.update({"strategy": "place", "kmax": (25, 80)[(h >> 12) & 1], "line_q": 1.0, "line": True})
     return cfg
 
 
